@@ -2,7 +2,7 @@ CLAIMED = True
 SPEC = {
     "id": "C17",
     "props": "PlzVerif/Props/C17.lean",
-    "extract": ["c16"],
+    "extract": ["c16", "c18"],
     "harness": "c17",
     "driver": "Driver/C17.lean",
     "needs_plz": False,
